@@ -436,10 +436,10 @@ func TestC07_Dbus(t *testing.T) {
 
 type C07Profile struct {
 	Name  string   `json:"name"`
-	Exec  []string `json:"exec"`  // values of @{exec_path} (definition)
-	More  []string `json:"more"`  // values appended with +=
-	Body  []string `json:"body"`  // rule lines (2-space indented)
-	Flags string   `json:"flags"` // header flags
+	Exec  []string `json:"exec"`            // values of @{exec_path} (definition)
+	More  []string `json:"more"`            // values appended with +=
+	Body  []string `json:"body"`            // rule lines (2-space indented)
+	Flags string   `json:"flags"`           // header flags
 	Entry string   `json:"entry,omitempty"` // access of the entry point rule ("" = mr)
 }
 
